@@ -180,6 +180,18 @@ func load(repo string) (*Ctx, error) {
 		}
 	}
 	sort.Slice(c.All, func(i, j int) bool { return c.All[i].PkgPath < c.All[j].PkgPath })
+	var osPkg *types.Package
+	for _, imp := range c.Pkgs[modPath+"/interp"].Types.Imports() {
+		if imp.Path() == "os" {
+			osPkg = imp
+		}
+	}
+	if osPkg == nil {
+		return nil, fmt.Errorf("package interp does not import os: open-flag constants not resolvable")
+	}
+	if err := setOpenFlags(osPkg); err != nil {
+		return nil, err
+	}
 	prog, spkgs := ssautil.AllPackages(pkgs, ssa.InstantiateGenerics)
 	prog.Build()
 	c.Prog = prog
